@@ -191,6 +191,12 @@ CompareFile(final) ==
                   LET n == IF s \in DOMAIN dec.cnt THEN dec.cnt[s] ELSE IF s \in DOMAIN dec.single THEN 1 ELSE 0
                       on == IF s \in DOMAIN o.slots THEN Len(o.slots[s]) ELSE -1
                   IN /\ IF n = on THEN TRUE ELSE Note(w @@ [what |-> "slot count", slot |-> s, expected |-> n, observed |-> on])
+                     \* a single-valued slot must hold the LAST message of its type
+                     /\ IF s \in DOMAIN dec.single /\ on = 1 /\ dec.single[s].skip = {}
+                           /\ ListToFun(o.slots[s][1].f) # dec.single[s].msg
+                           /\ \E q \in DOMAIN dec.single[s].earlier : dec.single[s].earlier[q] = ListToFun(o.slots[s][1].f)
+                        THEN Note(w @@ [what |-> "single slot holds an earlier message", slot |-> s])
+                        ELSE TRUE
                      /\ IF s \in DOMAIN dec.single /\ on = 1
                         THEN CompareMsg(w @@ [slot |-> s], dec.single[s].m, dec.single[s].msg, dec.single[s].skip, o.slots[s][1], [csd |-> FALSE, cyc |-> FALSE, pow |-> FALSE], gacc, lacc)
                         ELSE TRUE
